@@ -415,6 +415,66 @@ class Fresh:
         return cls.default
 
 
+def virtualise(dev, memo, depth=2):
+    """standard primitives reachable from a constructed device that were created OUTSIDE the simulation — at import / class-creation
+    time, e.g. a dataclass default `Event()` evaluated once — are replaced by their virtual stand-ins, IDENTITY PRESERVED (`memo`:
+    one stand-in per real object for the whole run, so a primitive that two instances share stays shared).  Without this a task
+    would block on a real primitive while holding the baton and the run would never come back.  Only attributes of objects of
+    nxslib classes are looked at (not the channel lists)."""
+    import queue as _q
+    import threading as _t
+    real = {_t.Event: "event", type(_t.Lock()): "lock", type(_t.RLock()): "rlock", _q.Queue: "queue", _q.SimpleQueue: "queue"}
+
+    def stand_in(v):
+        kind = real.get(type(v))
+        if kind is None:
+            return None
+        if id(v) not in memo:
+            if kind == "event":
+                n = vsim.VEvent()
+                n.flag = v.is_set()
+            elif kind == "queue":
+                n = vsim.VQueue(getattr(v, "maxsize", 0))
+            else:
+                n = vsim.VLock() if kind == "lock" else vsim.VRLock()
+            memo[id(v)] = (v, n)          # the real object is kept alive: its id stays unique
+        return memo[id(v)][1]
+
+    def walk(o, d):
+        try:
+            attrs = list(vars(o).items())
+        except TypeError:
+            return
+        for name, v in attrs:
+            n = stand_in(v)
+            if n is not None:
+                try:
+                    object.__setattr__(o, name, n)
+                except Exception:  # noqa: BLE001
+                    pass
+            elif d > 0 and (type(v).__module__ or "").startswith("nxslib"):
+                walk(v, d - 1)
+    walk(dev, depth)
+
+
+def stream_flag(dev):
+    """the device's "stream started" event, wherever the implementation keeps it (observation only): `_stream_started`, or the
+    one event named `*started*` one object below the device"""
+    ev = getattr(dev, "_stream_started", None)
+    if ev is None:
+        for v in list(vars(dev).values()):
+            if (type(v).__module__ or "").startswith("nxslib") and hasattr(v, "__dict__"):
+                for name, e in vars(v).items():
+                    if "started" in name and hasattr(e, "is_set"):
+                        ev = e
+    if ev is None:
+        return "?"
+    return int(ev.flag if hasattr(ev, "flag") else ev.is_set())
+
+
+REAL_LIMIT = float(os.environ.get("VERIF_DUMMY_REAL_LIMIT_S", "150"))
+
+
 def run_history(defs, ops, max_idle=200000):
     """returns (tokens, info).  tokens: one per op, in the format of the Lean driver."""
     ctl = Ctl()
@@ -443,6 +503,7 @@ def run_history(defs, ops, max_idle=200000):
         late = {int(o[0]) for o in ops if o[1] == "n"}
         devs, lists = [None] * len(defs), [None] * len(defs)
         info["snap"] = [None] * len(defs)
+        memo = {}                        # real primitive -> its virtual stand-in (see `virtualise`)
 
         def construct(k):
             d = defs[k]
@@ -463,6 +524,7 @@ def run_history(defs, ops, max_idle=200000):
                 dev = dm.DummyDev(chmax=len(chans), flags=d["flags"], channels=chans, rxpadding=d["rxp"],
                                   stream_sleep=sleep, stream_snum=d["snum"])
             dev.write_padding = d.get("wpad", d["rxp"])
+            virtualise(dev, memo)
             devs[k] = {"dev": dev, "recv": None, "stream": None}
             info["snap"][k] = snapshot(dev)       # the device's DEFINITION, before its history starts (for the oracle)
 
@@ -566,15 +628,42 @@ def run_history(defs, ops, max_idle=200000):
                 en = "".join("1" if x else "0" for x in dd.channels_en)
                 dv = ",".join(str(x) for x in dd.channels_div)
                 calls = ",".join(str(getattr(ch, "_cntr", "?")) for ch in dd._channels)
-                out.append(f"{en}/{dv}/{int(dev._stream_started.flag)}/{dev._qwrite.qsize()}/{dev._qread.qsize()}/{calls}")
+                out.append(f"{en}/{dv}/{stream_flag(dev)}/{dev._qwrite.qsize()}/{dev._qread.qsize()}/{calls}")
             else:
                 raise ValueError(op)
 
-    with vsim.installed(sim):
-        try:
-            r = sim.run(scenario)
-        except BaseException as e:  # noqa: BLE001
-            r = e
+    # a real-time watchdog (as in vsim.run_sim; SIGALRM, main thread only): a task that never reaches a switch point — it blocks
+    # on a primitive the simulation does not know, or loops — must not hang the check; the history is reported as not terminating
+    import signal
+    import threading as _th
+    use_alarm = REAL_LIMIT > 0 and _th.current_thread() is _th.main_thread()
+    fired = [False]
+
+    def on_alarm(signum, frame):
+        # (no lock / semaphore operation in here, see vsim.run_sim)
+        fired[0] = True
+        sim.killed = True
+        for t in sim.tasks[1:]:
+            if t.state != "done" and t.thread is not None:
+                vsim._async_raise(t.thread, vsim.Killed)
+        raise vsim.RealTimeLimit(f"no result after {REAL_LIMIT:.0f} s of real time at virtual t={sim.now:.2f}")
+
+    old_handler = None
+    if use_alarm:
+        old_handler = signal.signal(signal.SIGALRM, on_alarm)
+        signal.setitimer(signal.ITIMER_REAL, REAL_LIMIT)
+    try:
+        with vsim.installed(sim):
+            try:
+                r = sim.run(scenario)
+            except BaseException as e:  # noqa: BLE001
+                r = e
+    finally:
+        if use_alarm:
+            signal.setitimer(signal.ITIMER_REAL, 0)
+            signal.signal(signal.SIGALRM, old_handler)
+    if fired[0] and not isinstance(r, vsim.RealTimeLimit):
+        r = vsim.RealTimeLimit(f"real-time budget of {REAL_LIMIT:.0f} s exceeded")
     if isinstance(r, BaseException):
         raise r
     return r, info
